@@ -47,9 +47,11 @@ func (w *Work) UnmarshalText(b []byte) error {
 	if len(b) > 1024 {
 		return errors.New("value overflows Work representation")
 	}
-	i := new(big.Int)
-	if err := i.UnmarshalText(b); err != nil {
-		return err
+	// Work is always written as a base-10 integer; big.Int.UnmarshalText would
+	// detect the base from the prefix ("010" = 8, "0x10" = 16)
+	i, ok := new(big.Int).SetString(string(b), 10)
+	if !ok {
+		return fmt.Errorf("invalid decimal number %q", b)
 	} else if i.Sign() < 0 {
 		return errors.New("value cannot be negative")
 	} else if i.BitLen() > 256 {
